@@ -436,6 +436,26 @@ func c08CheckPayload(c *c08Codec, root reflect.Value, leafs []c08Leaf, vals []re
 			if !c08Eq(reflect.ValueOf(c.Orig(aback)), reflect.ValueOf(c.Orig(p))) {
 				return "json-enum-name-differs:" + c.Name + ":" + seg, desc + " json=" + c08Trunc(string(alt))
 			}
+			// the ZERO member is never written by the marshaler (default value): spell it in the place of this value, once by
+			// name and once as the number 0 - "enum values written either as numbers or as names, with the same result"
+			if vals[i].Int() == 1 {
+				zname := reflect.Zero(l.typ).MethodByName("String").Call(nil)[0].String()
+				if zname != "0" {
+					altName := re.ReplaceAll(js, []byte(`"`+l.json+`":"`+zname+`"`))
+					altNum := re.ReplaceAll(js, []byte(`"`+l.json+`":0`))
+					bn, errN := c.UnmarshalJSON(altNum)
+					if errN != nil {
+						return "json-enum-zero-number-rejected:" + c.Name + ":" + seg, desc + c08Trunc(errN.Error()) + " json=" + c08Trunc(string(altNum))
+					}
+					bz, errZ := c.UnmarshalJSON(altName)
+					if errZ != nil {
+						return "json-enum-name-rejected:" + c.Name + ":" + seg, desc + "zero member by name: " + c08Trunc(errZ.Error()) + " json=" + c08Trunc(string(altName))
+					}
+					if !c08Eq(reflect.ValueOf(c.Orig(bz)), reflect.ValueOf(c.Orig(bn))) {
+						return "json-enum-name-differs:" + c.Name + ":" + seg, desc + " zero member by name vs as 0, json=" + c08Trunc(string(altName))
+					}
+				}
+			}
 		}
 	}
 	return "", ""
